@@ -1,16 +1,294 @@
-(* C07 — TT-ALS.  Only statements, each closed by [exact]. *)
-From Coq Require Import List Arith Lia PeanoNat Permutation.
-From TV Require Import Num.Ops Lin.Tab Lin.BigSum Lin.Solve TT.Chain Model.Als Model.AlsFunc Proofs.AlsLin Proofs.AlsSim.
+(* C07 — TT-ALS.  Only statements, each closed by [exact].
+   Models: Model/Als.v (als, constant rank and rank-adaptive), Model/AlsFunc.v (als_func, n_max=None).
+   [solve] is the oracle for scipy.linalg.lstsq(gelsy); theorems without a hypothesis on it hold for EVERY solver.
+   [acc]/[accv] are the oracles for teneva.accuracy / accuracy_on_data, [cb] is the callback. *)
+From Coq Require Import List Arith Lia PeanoNat Bool Permutation Reals.
+From TV Require Import Num.Ops Lin.Tab Lin.BigSum Lin.Solve TT.Chain Model.Als Model.AlsFunc
+  Proofs.AlsLin Proofs.AlsSim Proofs.AlsTop Proofs.AlsDesc Proofs.AlsWit Proofs.AlsFuncP Proofs.AlsAdaP Proofs.AlsFuncSim Proofs.AlsFuncDesc Proofs.AlsFuncPerm.
 Import ListNotations.
 
-(* shape and ranks of every core are those of the state the sweeps started from, for every number of sweeps *)
-Theorem C07_sweeps_dims : forall T (K : ops T) solve lamb Sm (s : st) n,
-  map dims (sY (Nat.iter n (sweep K solve lamb Sm) s)) = map dims (sY s).
-Proof. exact @iter_sweep_dims. Qed.
+(* ================================================================== index version, constant rank *)
 
-(* a+b sweeps = a sweeps, restart from the cores, b sweeps *)
+(* shape and ranks: whatever als returns has the (r1, n, r2) of every core of the initial approximation *)
+Theorem C07_als_shape : forall T (K : ops T) solve acc accv cb Sm (Y0 : list (core T)) nswp e evld lamb skip fuel Y inf,
+  als K solve acc accv cb Sm Y0 nswp e evld lamb skip fuel = Ok (Y, inf) -> map dims Y = map dims Y0.
+Proof. exact @als_wf. Qed.
+
+(* info['nswp'] is the executed sweep count: the returned cores are those after exactly that many sweeps (>= 1) *)
+Theorem C07_als_sweep_count : forall T (K : ops T) solve acc accv cb Sm (Y0 : list (core T)) nswp e evld lamb skip fuel Y inf,
+  als K solve acc accv cb Sm Y0 nswp e evld lamb skip fuel = Ok (Y, inf) ->
+  1 <= i_nswp inf /\ i_nswp inf <= fuel /\ Y = sY (Nat.iter (i_nswp inf) (sweep K solve lamb Sm) (init_st K Sm Y0)).
+Proof. exact @als_spec. Qed.
+
+(* info['stop'] is justified: 'nswp' => nswp <= executed sweeps; 'e' => 0 <= info['e'] <= e; 'e_vld' => the validation
+   error after the last sweep or before the first one is in [0, e_vld]; 'cb' => the callback returned True after
+   the last sweep.  (-1 >= 0 is false: the carrier orders -1 below 0.) *)
+Theorem C07_als_stop_reason : forall T (K : ops T) solve acc accv cb, oleb K (o0 K) (oopp K (o1 K)) = false ->
+  forall Sm (Y0 : list (core T)) nswp e evld lamb skip fuel Y inf,
+  als K solve acc accv cb Sm Y0 nswp e evld lamb skip fuel = Ok (Y, inf) ->
+  stop_justified K cb nswp e evld (accv O Y0) Y inf.
+Proof. exact @als_stop. Qed.
+
+(* only nswp given: max(1, nswp) sweeps, reported as such, stop reason 'nswp' (nswp = 0 executes one sweep) *)
+Theorem C07_als_nswp : forall T (K : ops T) solve acc accv cb Sm (Y0 : list (core T)) n lamb skip fuel,
+  cb = None -> negb skip && negb (check_slices Sm Y0) = false -> idx_ok Sm Y0 = true -> Nat.max 1 n <= fuel ->
+  exists ec ev, als K solve acc accv cb Sm Y0 (Some n) None None lamb skip fuel
+                = Ok (sY (Nat.iter (Nat.max 1 n) (sweep K solve lamb Sm) (init_st K Sm Y0)),
+                      mk_info (Nat.max 1 n) SNswp ec ev).
+Proof. exact @als_nswp. Qed.
+
+(* a callback returning True after sweep t stops the run right after that sweep at the latest, whatever the options *)
+Theorem C07_als_cb_stops : forall T (K : ops T) solve acc accv cb c Sm (Y0 : list (core T)) nswp e evld lamb skip fuel t,
+  cb = Some c -> negb skip && negb (check_slices Sm Y0) = false -> idx_ok Sm Y0 = true -> 1 <= t -> t <= fuel ->
+  c t (sY (Nat.iter t (sweep K solve lamb Sm) (init_st K Sm Y0))) = true ->
+  exists Y inf, als K solve acc accv cb Sm Y0 nswp e evld lamb skip fuel = Ok (Y, inf) /\ i_nswp inf <= t.
+Proof. exact @als_cb_stops. Qed.
+(* ... and when it is the first reason to stop: exactly t sweeps, stop reason 'cb' *)
+Theorem C07_als_cb_first : forall T (K : ops T) solve acc accv cb c Sm (Y0 : list (core T)) n lamb skip fuel t,
+  cb = Some c -> negb skip && negb (check_slices Sm Y0) = false -> idx_ok Sm Y0 = true -> 1 <= t -> t <= fuel -> t <= n ->
+  c t (sY (Nat.iter t (sweep K solve lamb Sm) (init_st K Sm Y0))) = true ->
+  (forall t', 1 <= t' -> t' < t -> c t' (sY (Nat.iter t' (sweep K solve lamb Sm) (init_st K Sm Y0))) = false) ->
+  exists ec ev, als K solve acc accv cb Sm Y0 (Some n) None None lamb skip fuel
+                = Ok (sY (Nat.iter t (sweep K solve lamb Sm) (init_st K Sm Y0)), mk_info t SCb ec ev).
+Proof. exact @als_cb_first. Qed.
+
+(* missing slice data: rejected with ValueError unless allow_skip_cores; the validation fires exactly on uncovered slices *)
+Theorem C07_als_missing_rejected : forall T (K : ops T) solve acc accv cb Sm (Y0 : list (core T)) nswp e evld lamb fuel,
+  check_slices Sm Y0 = false -> als K solve acc accv cb Sm Y0 nswp e evld lamb false fuel = Err ValueError.
+Proof. exact @als_missing_rejected. Qed.
+Theorem C07_uncovered_slice_detected : forall T Sm (Y0 : list (core T)) k i,
+  k < length Y0 -> i < cn (nth k Y0 dcore) ->
+  (forall sm, In sm Sm -> nth k (sidx sm) O < cn (nth k Y0 dcore) /\ nth k (sidx sm) O <> i) ->
+  check_slices Sm Y0 = false.
+Proof. exact @check_slices_uncovered. Qed.
+Theorem C07_covered_accepted : forall T Sm (Y0 : list (core T)),
+  (forall k, k < length Y0 -> forall sm, In sm Sm -> nth k (sidx sm) O < cn (nth k Y0 dcore)) ->
+  (forall k i, k < length Y0 -> i < cn (nth k Y0 dcore) -> exists sm, In sm Sm /\ nth k (sidx sm) O = i) ->
+  check_slices Sm Y0 = true.
+Proof. exact @check_slices_covered. Qed.
+
+(* interface matrices: after every core update of a sweep the left / right interface matrices hold the true partial
+   products of every sample w.r.t. the CURRENT cores, and the update is the one of the interface-free reference *)
+Theorem C07_interfaces_init : forall T (K : ops T) Sm (Y : list (core T)),
+  chain 1 Y 1 -> wfS (length Y) Sm -> Inv K Sm (length Y) (init_st K Sm Y) O.
+Proof. exact @init_inv. Qed.
+Theorem C07_interfaces_fwd : forall T (K : ops T) solve lamb Sm d (s : st) k,
+  Inv K Sm d s k -> S k < d -> wfS d Sm ->
+  sY (fwd_step K solve lamb Sm s k) = ref_step K solve lamb Sm (sY s) k /\ Inv K Sm d (fwd_step K solve lamb Sm s k) (S k).
+Proof. exact @fwd_step_sim. Qed.
+Theorem C07_interfaces_bwd : forall T (K : ops T) solve lamb Sm d (s : st) k,
+  Inv K Sm d s k -> 1 <= k -> k < d -> wfS d Sm ->
+  sY (bwd_step K solve lamb Sm s k) = ref_step K solve lamb Sm (sY s) k /\ Inv K Sm d (bwd_step K solve lamb Sm s k) (pred k).
+Proof. exact @bwd_step_sim. Qed.
+
+(* get is linear in one slice of one core, with exactly the row the code forms (commutative ring) *)
+Theorem C07_get_linear_in_slice : forall T (K : ops T), rng K -> forall Y1 (X : core T) Y2 i1 i i2,
+  length i1 = length Y1 -> wfo 1 Y1 i1 (cr1 X) -> i < cn X -> wfo (cr2 X) Y2 i2 1 ->
+  get K (Y1 ++ X :: Y2) (i1 ++ i :: i2)
+  = dot K (cr1 X * cr2 X) (kron_row K (cr1 X) (cr2 X) (run K [o1 K] Y1 i1) (rrun K Y2 i2)) (svec K X i).
+Proof. exact @get_slice. Qed.
+
+(* the objective as a function of core k alone = sum over its slices of the ridge objectives the code solves + a
+   term that does not depend on core k (commutative ring) *)
+Theorem C07_objective_splits : forall T (K : ops T), rng K -> forall lamb Sm (Y : list (core T)) k X,
+  k < length Y -> dims X = dims (nth k Y dcore) -> Sok Sm Y ->
+  Jobj K lamb Sm (upd k X Y) = oadd K (Jslices K lamb Sm Y k X) (Jrest K lamb Y k).
+Proof. exact @J_decomp. Qed.
+
+(* ridge identity (commutative ring): if x solves the normal equations the code forms, then for EVERY h
+   J(x + h) = J(x) + sum_j w_j (a_j . h)^2 + lamb |h|^2 *)
+Theorem C07_ridge_identity : forall T (K : ops T), rng K -> forall p lamb (rows : list lrow) (x h : list T),
+  (forall a, a < p -> nth a (mulmv K p (normal_mat K p lamb rows) x) (o0 K) = nth a (normal_rhs K p rows) (o0 K)) ->
+  Jrows K p lamb rows (vplus K p x h)
+  = oadd K (Jrows K p lamb rows x)
+      (oadd K (lsum K (map (fun row => omul K (rw row) (sq K (dot K p (ra row) h))) rows)) (omul K lamb (dot K p h h))).
+Proof. exact @ridge_identity. Qed.
+
+(* restart: nswp = a + b  equals  nswp = a followed by a fresh call on the result with nswp = b  (a, b >= 1) *)
+Theorem C07_als_restart : forall T (K : ops T) solve acc accv cb Sm (Y0 : list (core T)) a b lamb skip fuel Ya ia,
+  cb = None -> chain 1 Y0 1 -> 1 <= a -> 1 <= b -> a + b <= fuel ->
+  als K solve acc accv cb Sm Y0 (Some a) None None lamb skip fuel = Ok (Ya, ia) ->
+  exists Yab i1 i2, als K solve acc accv cb Sm Y0 (Some (a + b)) None None lamb skip fuel = Ok (Yab, i1) /\
+                    als K solve acc accv cb Sm Ya (Some b) None None lamb skip fuel = Ok (Yab, i2) /\
+                    i_nswp ia = a /\ i_nswp i1 = a + b /\ i_nswp i2 = b.
+Proof. exact @als_restart. Qed.
 Theorem C07_sweeps_restart : forall T (K : ops T) solve lamb Sm (Y : list (core T)) a b,
   chain 1 Y 1 -> wfS (length Y) Sm ->
   sY (Nat.iter (a + b) (sweep K solve lamb Sm) (init_st K Sm Y))
   = sY (Nat.iter b (sweep K solve lamb Sm) (init_st K Sm (sY (Nat.iter a (sweep K solve lamb Sm) (init_st K Sm Y))))).
 Proof. exact @sweeps_restart. Qed.
+
+(* sample order: the whole result (cores, sweep count, stop reason, error values) is invariant under permutations
+   of the sample list, for every option set, every solver, every callback (commutative ring) *)
+Theorem C07_als_sample_order : forall T (K : ops T) solve acc accv cb, rng K ->
+  forall Sm Sm' (Y0 : list (core T)) nswp e evld lamb skip fuel,
+  chain 1 Y0 1 -> Permutation Sm Sm' ->
+  als K solve acc accv cb Sm Y0 nswp e evld lamb skip fuel = als K solve acc accv cb Sm' Y0 nswp e evld lamb skip fuel.
+Proof. exact @als_perm. Qed.
+(* the pinned code (`if not idx.any()`, before c571a78) did depend on the order: machine-checked witness over Qc *)
+Theorem C07_pinned_order_dependent :
+  exists (Sm Sm' : list (@sample Qcanon.Qc)) Y0, Permutation Sm Sm' /\ chain 1 Y0 1 /\
+    als_pinned OQc (gauss_solve OQc) (qz 1%Z) Sm Y0 1 <> als_pinned OQc (gauss_solve OQc) (qz 1%Z) Sm' Y0 1.
+Proof. exact pinned_order_dependent. Qed.
+
+(* ------------------------------------------------------------------ order statements, at R
+   solver contract [spd_solver]: on a symmetric positive definite system N the solver returns x with N x = g.
+   lamb > 0, weights >= 0, every sample indexes the tensor properly (Sok). *)
+
+(* the system the code forms IS symmetric positive definite, so the solver returns a solution of the normal equations *)
+Theorem C07_normal_equations_solved : forall solve, spd_solver solve -> forall lamb, (0 < lamb)%R ->
+  forall p (rows : list lrow), Wrows rows -> forall a, a < p ->
+  nth a (mulmv ORa p (normal_mat ORa p lamb rows) (lstsq ORa solve p lamb rows)) 0%R = nth a (normal_rhs ORa p rows) 0%R.
+Proof. exact lstsq_solves. Qed.
+
+(* descent: every core update decreases the regularised weighted objective ... *)
+Theorem C07_core_update_descends : forall solve, spd_solver solve -> forall lamb, (0 < lamb)%R ->
+  forall Sm (Y : list (core R)) k, k < length Y -> Sok Sm Y -> Wok Sm ->
+  (Jobj ORa lamb Sm (ref_step ORa solve lamb Sm Y k) <= Jobj ORa lamb Sm Y)%R.
+Proof. exact ref_step_descent. Qed.
+Theorem C07_code_fwd_update_descends : forall solve, spd_solver solve -> forall lamb, (0 < lamb)%R ->
+  forall Sm d (s : st) k, Inv ORa Sm d s k -> S k < d -> Sok Sm (sY s) -> Wok Sm ->
+  (Jobj ORa lamb Sm (sY (fwd_step ORa solve lamb Sm s k)) <= Jobj ORa lamb Sm (sY s))%R.
+Proof. exact fwd_step_descent. Qed.
+Theorem C07_code_bwd_update_descends : forall solve, spd_solver solve -> forall lamb, (0 < lamb)%R ->
+  forall Sm d (s : st) k, Inv ORa Sm d s k -> 1 <= k -> k < d -> Sok Sm (sY s) -> Wok Sm ->
+  (Jobj ORa lamb Sm (sY (bwd_step ORa solve lamb Sm s k)) <= Jobj ORa lamb Sm (sY s))%R.
+Proof. exact bwd_step_descent. Qed.
+(* ... hence the objective never increases from sweep to sweep of the code *)
+Theorem C07_als_descends : forall solve, spd_solver solve -> forall lamb, (0 < lamb)%R ->
+  forall Sm (Y0 : list (core R)) n, chain 1 Y0 1 -> Sok Sm Y0 -> Wok Sm ->
+  (Jobj ORa lamb Sm (sY (Nat.iter (S n) (sweep ORa solve lamb Sm) (init_st ORa Sm Y0)))
+   <= Jobj ORa lamb Sm (sY (Nat.iter n (sweep ORa solve lamb Sm) (init_st ORa Sm Y0))))%R.
+Proof. exact als_descent. Qed.
+
+(* per-core optimality: right after its update a core whose slices all have a sample minimises the objective over
+   ALL cores X of that shape, the other cores being fixed ... *)
+Theorem C07_core_update_optimal : forall solve, spd_solver solve -> forall lamb, (0 < lamb)%R ->
+  forall Sm (Y : list (core R)) k X, k < length Y -> Sok Sm Y -> Wok Sm ->
+  covered Sm k (cn (nth k Y dcore)) -> dims X = dims (nth k Y dcore) ->
+  (Jobj ORa lamb Sm (ref_step ORa solve lamb Sm Y k) <= Jobj ORa lamb Sm (upd k X (ref_step ORa solve lamb Sm Y k)))%R.
+Proof. exact ref_step_optimal. Qed.
+(* ... in particular the core updated last (core 1) in what als returns after n+1 sweeps, d >= 2 *)
+Theorem C07_als_last_core_optimal : forall solve, spd_solver solve -> forall lamb, (0 < lamb)%R ->
+  forall Sm (Y0 : list (core R)) n X, chain 1 Y0 1 -> Sok Sm Y0 -> Wok Sm -> 2 <= length Y0 ->
+  covered Sm 1 (cn (nth 1 Y0 dcore)) -> dims X = dims (nth 1 Y0 dcore) ->
+  let Yn := sY (Nat.iter (S n) (sweep ORa solve lamb Sm) (init_st ORa Sm Y0)) in
+  (Jobj ORa lamb Sm Yn <= Jobj ORa lamb Sm (upd 1 X Yn))%R.
+Proof. exact als_last_core_optimal. Qed.
+
+(* ================================================================== rank-adaptive mode (r given), d >= 3
+   contracts: matrix_skeleton(A, e, r, rel=True) returns factors of inner size <= r; orthogonalize keeps mode sizes *)
+Theorem C07_adaptive_ranks : forall T (K : ops T) solve orth skel,
+  (forall c M rmax, cr2 (fst (skel c M rmax)) <= rmax) -> (forall Y : list (core T), map cn (orth Y) = map cn Y) ->
+  forall lamb r radd Sm (Y0 : list (core T)) nswp Y, 3 <= length Y0 ->
+  als_adaptive K solve orth skel Sm Y0 nswp r radd lamb = Ok Y ->
+  map cn Y = map cn Y0 /\ forall j, S j < length Y -> cr2 (nth j Y dcore) <= r.
+Proof. exact @als_adaptive_ranks. Qed.
+
+(* ================================================================== functional version (als_func, n_max = None) *)
+Theorem C07_als_func_shape : forall T (K : ops T) solve lamb acc accv H y (A0 : list (core T)) nswp e evld fuel Y inf,
+  als_func K solve acc accv H y A0 nswp e evld lamb fuel = Ok (Y, inf) -> map dims Y = map dims A0.
+Proof. exact @als_func_wf. Qed.
+Theorem C07_als_func_sweep_count : forall T (K : ops T) solve lamb acc accv H y (A0 : list (core T)) nswp e evld fuel Y inf,
+  als_func K solve acc accv H y A0 nswp e evld lamb fuel = Ok (Y, inf) ->
+  1 <= i_nswp inf /\ i_nswp inf <= fuel /\ Y = fY (Nat.iter (i_nswp inf) (fsweep K solve lamb y H) (finit_st K H y A0)).
+Proof. exact @als_func_spec. Qed.
+Theorem C07_als_func_nswp : forall T (K : ops T) solve lamb acc accv H y (A0 : list (core T)) n fuel, Nat.max 1 n <= fuel ->
+  exists ec ev, als_func K solve acc accv H y A0 (Some n) None None lamb fuel
+                = Ok (fY (Nat.iter (Nat.max 1 n) (fsweep K solve lamb y H) (finit_st K H y A0)),
+                      mk_info (Nat.max 1 n) SNswp ec ev).
+Proof. exact @als_func_nswp. Qed.
+Theorem C07_als_func_stop_reason : forall T (K : ops T) solve lamb acc accv, oleb K (o0 K) (oopp K (o1 K)) = false ->
+  forall H y (A0 : list (core T)) nswp e evld fuel Y inf,
+  als_func K solve acc accv H y A0 nswp e evld lamb fuel = Ok (Y, inf) ->
+  stop_justified K None nswp e evld (accv O A0) Y inf.
+Proof. exact @als_func_stop. Qed.
+
+(* interface matrices of als_func hold the true partial products of the effective chains
+   (sum_i H[k][s,i] * Y[k][:, i, :]) of every sample after every core update; the update is the reference one *)
+Theorem C07_func_interfaces_init : forall T (K : ops T) H y (Y : list (core T)),
+  chain 1 Y 1 -> Hwf H (length Y) (length y) -> FInv K H y (length Y) (finit_st K H y Y) O.
+Proof. exact @finit_inv. Qed.
+Theorem C07_func_interfaces_fwd : forall T (K : ops T) solve lamb H y d (s : fstate) k,
+  FInv K H y d s k -> S k < d -> Hwf H d (length y) ->
+  fY (ffwd_step K solve lamb y H s k) = ref_fstep K solve lamb y H (fY s) k /\ FInv K H y d (ffwd_step K solve lamb y H s k) (S k).
+Proof. exact @ffwd_step_sim. Qed.
+Theorem C07_func_interfaces_bwd : forall T (K : ops T) solve lamb H y d (s : fstate) k,
+  FInv K H y d s k -> 1 <= k -> k < d -> Hwf H d (length y) ->
+  fY (fbwd_step K solve lamb y H s k) = ref_fstep K solve lamb y H (fY s) k /\ FInv K H y d (fbwd_step K solve lamb y H s k) (pred k).
+Proof. exact @fbwd_step_sim. Qed.
+
+(* the functional TT is linear in one whole core, with exactly the row the code forms (commutative ring) *)
+Theorem C07_func_linear_in_core : forall T (K : ops T), rng K -> forall (Y : list (core T)) hs k X,
+  k < length Y -> chain 1 Y 1 -> length hs = length Y -> dims X = dims (nth k Y dcore) ->
+  fget K (upd k X Y) hs
+  = dot K (cr1 X * cn X * cr2 X) (frow K (cr1 X) (cn X) (cr2 X) (flvec K Y hs k) (nth k hs []) (frvec K Y hs k)) (cvec K X).
+Proof. exact @fget_lin. Qed.
+(* the objective as a function of core k alone is the ridge objective the code solves + a term without core k *)
+Theorem C07_func_objective_splits : forall T (K : ops T), rng K -> forall lamb H y (Y : list (core T)) k X,
+  k < length Y -> chain 1 Y 1 -> Hwf H (length Y) (length y) -> dims X = dims (nth k Y dcore) ->
+  fJobj K lamb H y (upd k X Y)
+  = oadd K (Jrows K (cr1 X * cn X * cr2 X) lamb (frows K (cr1 X) (cn X) (cr2 X) (fzref K H y Y k)) (cvec K X)) (Jrest K lamb Y k).
+Proof. exact @fJ_decomp. Qed.
+
+(* restart *)
+Theorem C07_als_func_restart : forall T (K : ops T) solve lamb acc accv H y (A0 : list (core T)) a b fuel Ya ia,
+  chain 1 A0 1 -> Hwf H (length A0) (length y) -> 1 <= a -> 1 <= b -> a + b <= fuel ->
+  als_func K solve acc accv H y A0 (Some a) None None lamb fuel = Ok (Ya, ia) ->
+  exists Yab i1 i2, als_func K solve acc accv H y A0 (Some (a + b)) None None lamb fuel = Ok (Yab, i1) /\
+                    als_func K solve acc accv H y Ya (Some b) None None lamb fuel = Ok (Yab, i2) /\
+                    i_nswp ia = a /\ i_nswp i1 = a + b /\ i_nswp i2 = b.
+Proof. exact @als_func_restart. Qed.
+
+(* sample order: re-listing the training set in the order sigma (y[sigma], H[k][sigma, :]) does not change the result
+   of als_func (cores and info), for every option set and solver (commutative ring) *)
+Theorem C07_als_func_sample_order : forall T (K : ops T) solve lamb, rng K ->
+  forall sigma H y, Permutation sigma (seq 0 (length y)) ->
+  forall acc accv (A0 : list (core T)) nswp e evld fuel, chain 1 A0 1 -> Hwf H (length A0) (length y) ->
+  als_func K solve acc accv (reorder_H sigma H) (reorder_y K sigma y) A0 nswp e evld lamb fuel
+  = als_func K solve acc accv H y A0 nswp e evld lamb fuel.
+Proof. exact @als_func_perm. Qed.
+
+(* at R, lamb > 0, solver contract: every core update descends and leaves that core at the exact minimiser over ALL
+   cores of its shape (no coverage condition: the whole core is one ridge problem) *)
+Theorem C07_func_core_update_optimal : forall solve, spd_solver solve -> forall lamb, (0 < lamb)%R ->
+  forall y H (Y : list (core R)) k X, k < length Y -> chain 1 Y 1 -> Hwf H (length Y) (length y) ->
+  dims X = dims (nth k Y dcore) ->
+  (fJobj ORa lamb H y (ref_fstep ORa solve lamb y H Y k) <= fJobj ORa lamb H y (upd k X Y))%R.
+Proof. exact ref_fstep_optimal. Qed.
+Theorem C07_func_core_update_descends : forall solve, spd_solver solve -> forall lamb, (0 < lamb)%R ->
+  forall y H (Y : list (core R)) k, k < length Y -> chain 1 Y 1 -> Hwf H (length Y) (length y) ->
+  (fJobj ORa lamb H y (ref_fstep ORa solve lamb y H Y k) <= fJobj ORa lamb H y Y)%R.
+Proof. exact ref_fstep_descent. Qed.
+Theorem C07_als_func_descends : forall solve, spd_solver solve -> forall lamb, (0 < lamb)%R ->
+  forall y H (A0 : list (core R)) n, chain 1 A0 1 -> Hwf H (length A0) (length y) ->
+  (fJobj ORa lamb H y (fY (Nat.iter (S n) (fsweep ORa solve lamb y H) (finit_st ORa H y A0)))
+   <= fJobj ORa lamb H y (fY (Nat.iter n (fsweep ORa solve lamb y H) (finit_st ORa H y A0))))%R.
+Proof. exact als_func_descent. Qed.
+Theorem C07_als_func_last_core_optimal : forall solve, spd_solver solve -> forall lamb, (0 < lamb)%R ->
+  forall y H (A0 : list (core R)) n X, chain 1 A0 1 -> Hwf H (length A0) (length y) -> 2 <= length A0 ->
+  dims X = dims (nth 1 A0 dcore) ->
+  let Yn := fY (Nat.iter (S n) (fsweep ORa solve lamb y H) (finit_st ORa H y A0)) in
+  (fJobj ORa lamb H y Yn <= fJobj ORa lamb H y (upd 1 X Yn))%R.
+Proof. exact als_func_last_core_optimal. Qed.
+
+(* ================================================================== non-vacuity *)
+Example C07_example_hypotheses :
+  chain 1 exY 1 /\ Sok exS exY /\ Wok exS /\ covered exS 1 (cn (nth 1 exY dcore)) /\ 2 <= length exY /\
+  Hwf exH (length exY) (length exy).
+Proof. exact hyps_example. Qed.
+Example C07_example_run :
+  match als OQc (gauss_solve OQc) noacc noaccv None wS ones2 (Some 2) None None (qz 1%Z) false 10 with
+  | Ok (Y, inf) => i_nswp inf = 2 /\ i_stop inf = SNswp /\ map (fun G => (cr1 G, cn G, cr2 G)) Y = [(1, 2, 1); (1, 2, 1)]
+  | Err _ => False
+  end.
+Proof. exact als_run_example. Qed.
+Example C07_example_missing :
+  als OQc (gauss_solve OQc) noacc noaccv None (tl wS) ones2 (Some 1) None None (qz 1%Z) false 10 = Err ValueError /\
+  match als OQc (gauss_solve OQc) noacc noaccv None (tl wS) ones2 (Some 1) None None (qz 1%Z) true 10 with
+  | Ok (Y, inf) => i_nswp inf = 1 | Err _ => False end.
+Proof. exact als_missing_example. Qed.
+Example C07_example_solver_contract :
+  let N := [[qz 3%Z; qz 1%Z]; [qz 1%Z; qz 2%Z]] in let g := [qz 1%Z; qz 4%Z] in
+  map showQ (mulmv OQc 2 N (gauss_solve OQc N g)) = map showQ g.
+Proof. exact solver_contract_example. Qed.
